@@ -950,6 +950,109 @@ theorem success_untouched_for_that_request (cfg : Cfg) (ops : List Op) (c k : Na
   refine ⟨rq.tag, h2, ?_⟩
   rw [hev]; cases rq; simp only at h1; subst h1; rfl
 
+/-! ## which copy of the request goes where (request types with an observable `Clone`)
+
+`Sub` = a request with its generation (bumped by `clone()`); `handOut` = what `Fallback::call` does with the request it
+is given (lib.rs:279-285); `FEv.sight g e` = the request value event `e` hands to user code when caller `c` submitted
+generation `g c`. The property text fixes the primary side ("for that request", a success "passes through unchanged":
+the wrapped service works on the request the caller submitted, not on a copy of it); the strategy side (exactly one copy
+further) is the reading of lib.rs:279. -/
+
+/-- what `Fallback::call` hands out: the request itself to the inner call, ONE copy of it to the strategies; the copy
+is the same request (`c`, `tag`), one generation further — a different value -/
+theorem handOut_exact (r : Sub) :
+    (handOut r).primary = r ∧ (handOut r).strategy = r.clone ∧ (handOut r).strategy.rq = r.rq ∧
+    (handOut r).strategy.gen = r.gen + 1 ∧ (handOut r).primary ≠ (handOut r).strategy := by
+  refine ⟨rfl, rfl, rfl, rfl, ?_⟩
+  intro h
+  have : r.gen = r.gen + 1 := congrArg Sub.gen h
+  omega
+
+/-- the seeded clause: handing the copy to the inner call and the original to the strategies is a different hand-out,
+for every request — on both sides -/
+theorem swapped_handOut_differs (r : Sub) :
+    (⟨(handOut r).strategy, (handOut r).primary⟩ : Handed) ≠ handOut r ∧
+    (handOut r).strategy ≠ r ∧ (handOut r).primary ≠ r.clone := by
+  have h := (handOut_exact r).2.2.2.2
+  refine ⟨?_, ?_, ?_⟩
+  · intro e
+    exact h (congrArg Handed.strategy e)
+  · intro e
+    exact h (by rw [(handOut_exact r).1]; exact e.symm)
+  · intro e
+    exact h (by rw [e]; rfl)
+
+/-- a stack hands the request down unchanged: what the lower instance is submitted by the upper one is the request
+the caller submitted, so both instances hand out the same two values -/
+theorem stack_hands_down_the_original (r : Sub) : handOut (handOut r).primary = handOut r := rfl
+
+/-- In every run, with every assignment of submitted generations: the inner call of caller `c` is handed exactly the
+request `c` submitted — `(c, tag)` of its `arrive` AND the generation it submitted, not a copy. -/
+theorem inner_gets_submitted_request (cfg : Cfg) (ops : List Op) (g : Nat → Nat) (c k : Nat) (rq : Request)
+    (h : FEv.innerCall c k rq ∈ (run cfg ops).log) :
+    ∃ tag, requestOf ops c = some tag ∧
+      (FEv.innerCall c k rq).sight g = some ⟨.inner, c, ⟨⟨c, tag⟩, g c⟩⟩ := by
+  obtain ⟨h1, h2⟩ := request_forwarded_unchanged cfg ops c k rq (Or.inl h)
+  refine ⟨rq.tag, h2, ?_⟩
+  cases rq; simp only at h1; subst h1; rfl
+
+/-- In every run: the backup call and the `from_request_error` function of caller `c` are handed the copy of the
+request `c` submitted — the same `(c, tag)`, one generation further; never the submitted value itself. -/
+theorem strategy_gets_the_copy (cfg : Cfg) (ops : List Op) (g : Nat → Nat) (c : Nat) (ev : FEv)
+    (hev : ev ∈ (run cfg ops).log)
+    (hk : (∃ k rq, ev = .backupCall c k rq) ∨ (∃ rq e, ev = .callback c (.fromReqErr rq e))) :
+    ∃ tag who, requestOf ops c = some tag ∧ who ≠ Who.inner ∧
+      ev.sight g = some ⟨who, c, (⟨⟨c, tag⟩, g c⟩ : Sub).clone⟩ ∧
+      ev.sight g ≠ some ⟨who, c, ⟨⟨c, tag⟩, g c⟩⟩ := by
+  rcases hk with ⟨k, rq, rfl⟩ | ⟨rq, e, rfl⟩
+  · obtain ⟨h1, h2⟩ := request_forwarded_unchanged cfg ops c k rq (Or.inr (Or.inl hev))
+    refine ⟨rq.tag, .backup, h2, by decide, ?_, ?_⟩
+    · cases rq; simp only at h1; subst h1; rfl
+    · cases rq; simp only at h1; subst h1
+      simp [FEv.sight, handOut, Sub.clone]
+  · obtain ⟨h1, h2⟩ := request_forwarded_unchanged cfg ops c 0 rq (Or.inr (Or.inr ⟨e, hev⟩))
+    refine ⟨rq.tag, .fromReqErr, h2, by decide, ?_, ?_⟩
+    · cases rq; simp only at h1; subst h1; rfl
+    · cases rq; simp only at h1; subst h1
+      simp [FEv.sight, handOut, Sub.clone]
+
+/-- Every request value handed to user code in a run is accounted for: it is the request its caller submitted
+(generation included) if it goes to the inner call, and that request's one copy otherwise. -/
+theorem every_sight_justified (cfg : Cfg) (ops : List Op) (g : Nat → Nat) (ev : FEv) (s : Sight)
+    (hev : ev ∈ (run cfg ops).log) (hs : ev.sight g = some s) :
+    ∃ tag, requestOf ops s.c = some tag ∧ s.got.rq = ⟨s.c, tag⟩ ∧
+      s.got.gen = (if s.who = .inner then g s.c else g s.c + 1) := by
+  cases ev with
+  | innerCall c k rq =>
+      obtain ⟨tag, h2, h3⟩ := inner_gets_submitted_request cfg ops g c k rq hev
+      rw [h3] at hs; cases hs; exact ⟨tag, h2, rfl, rfl⟩
+  | backupCall c k rq =>
+      obtain ⟨tag, who, h2, _, h3, _⟩ := strategy_gets_the_copy cfg ops g c _ hev (Or.inl ⟨k, rq, rfl⟩)
+      have hw : who = .backup := by
+        simp only [FEv.sight] at h3; cases h3; rfl
+      subst hw
+      rw [h3] at hs; cases hs; exact ⟨tag, h2, rfl, rfl⟩
+  | callback c cb =>
+      cases cb with
+      | fromReqErr rq e =>
+          obtain ⟨tag, who, h2, _, h3, _⟩ := strategy_gets_the_copy cfg ops g c _ hev (Or.inr ⟨rq, e, rfl⟩)
+          have hw : who = .fromReqErr := by
+            simp only [FEv.sight] at h3; cases h3; rfl
+          subst hw
+          rw [h3] at hs; cases hs; exact ⟨tag, h2, rfl, rfl⟩
+      | _ => simp [FEv.sight] at hs
+  | _ => simp [FEv.sight] at hs
+
+/-- the seeded demo: a request submitted as an original (generation 0) under `from_request_error` with a failing
+inner call, and one submitted as a copy (generation 3) under the backup service -/
+example :
+    let g : Nat → Nat := fun c => if c = 2 then 3 else 0
+    ((run (test .fromReqErr none 0) [.arrive 1 5 [⟨0, .err 1⟩], .poll 1]).log.filterMap (FEv.sight g) =
+      [⟨.inner, 1, ⟨⟨1, 5⟩, 0⟩⟩, ⟨.fromReqErr, 1, ⟨⟨1, 5⟩, 1⟩⟩]) ∧
+    ((run (test .service none 0) [.arrive 2 7 [⟨0, .err 1⟩, ⟨0, .ok⟩], .poll 2]).log.filterMap (FEv.sight g) =
+      [⟨.inner, 2, ⟨⟨2, 7⟩, 3⟩⟩, ⟨.backup, 2, ⟨⟨2, 7⟩, 4⟩⟩]) := by
+  decide
+
 /-! ## rejected errors and user functions, at run level -/
 
 /-- The mirror of `success_untouched` for an error the predicate **rejects**: in every run, once the inner
